@@ -225,7 +225,7 @@ fn gen(ctx: &GenCtx, i: u64, prop: &str) -> Option<Run> {
     let now = gen_now(&mut r).clamp(T_1971 + 2 * DAY, t_9000() - 400 * DAY);
     let kspec = key_for(proto, &mut r);
     let key = rb.key(kspec.clone());
-    let footer = if r.chance(1, 3) { Some(nonempty_text!(r, 6)) } else { None };
+    let mut footer = if r.chance(1, 3) { Some(nonempty_text!(r, 6)) } else { None };
     let assertion = if proto.has_assertion() && r.chance(1, 3) { Some(nonempty_text!(r, 6)) } else { None };
 
     // ---- the verifier under test
@@ -303,6 +303,23 @@ fn gen(ctx: &GenCtx, i: u64, prop: &str) -> Option<Run> {
             Via::Validate
         };
         validators.push(ValidatorSpec { claim, behaviour, via });
+    }
+    if r.chance(1, 5) {
+        // a JSON footer that happens to have members named like the checked / validated claims (footers
+        // commonly carry a key id as JSON): validators and expectations are about the payload only
+        let mut o = serde_json::Map::new();
+        o.insert("kid".into(), json!("k4.lid.abc"));
+        for vs in &validators {
+            let val = match &vs.behaviour {
+                Behaviour::ExpectEq(x) if !x.is_null() => x.clone(),
+                _ => json!("good"),
+            };
+            o.insert(vs.claim.key().to_string(), val);
+        }
+        for e in &expect {
+            o.insert(e.key().to_string(), e.value());
+        }
+        footer = Some(Value::Object(o).to_string());
     }
     let expect_via_extend = layer == Layer::Generic && r.chance(1, 5) && expect.iter().all(|c| !RESERVED.contains(&c.key()));
     let mut expect_final = expect.clone();
